@@ -72,6 +72,28 @@ func extractHub() {
 	} else {
 		miss("ttc_mint_hub")
 	}
+	// --- staking hooks: every method of keeper.Hooks with the statements of its body
+	if f := parse("module/x/mhub2/keeper/hooks.go"); f != nil {
+		var l []string
+		for _, d := range f.Decls {
+			fd, ok := d.(*ast.FuncDecl)
+			if !ok || fd.Recv == nil || len(fd.Recv.List) == 0 || fd.Body == nil {
+				continue
+			}
+			if src(fd.Recv.List[0].Type) != "Hooks" {
+				continue
+			}
+			var st []string
+			for _, x := range fd.Body.List {
+				st = append(st, src(x))
+			}
+			l = append(l, fd.Name.Name+"{"+strings.Join(st, "; ")+"}")
+		}
+		sort.Strings(l)
+		set("staking_hooks", strings.Join(l, " | "))
+	} else {
+		miss("staking_hooks")
+	}
 	// --- vote threshold and tally
 	if fd := findFunc(fGenesis, "", "EventVoteRecordPowerThreshold"); fd != nil {
 		firstOr("vote_threshold_expr", returns(fd), 0)
